@@ -72,8 +72,14 @@ def amax_red(x, dim):
     return x.amax(dim)
 
 
+def halfsum_red(x, dim):
+    """a reduction that is not the identity on a single part (a damped sum): the reduction runs for any number of parts"""
+    return x.sum(dim) * 0.5
+
+
 REDUCTIONS = {
     "default": (None, lambda cols: sum(cols)),
+    "halfsum": (halfsum_red, lambda cols: sum(cols) * 0.5),
     "mean": (torch.mean, lambda cols: sum(cols) / len(cols)),
     "amax": (amax_red, lambda cols: max(cols)),
 }
@@ -119,8 +125,9 @@ HALF_LO = {"mult": (fn.bound_lower_multiplicative, {}), "smult": (fn.bound_lower
            "power": (fn.bound_lower_power, {"power": 2.0}), "spower": (fn.bound_lower_scaled_power, {"power": 2.0, "range": MAX - MIN}),
            "sharp": (fn.bound_lower_sharp, {})}
 FULL = {"mult": (fn.bound_multiplicative, {}), "smult": (fn.bound_scaled_multiplicative, {}),
-        "power": (fn.bound_power, {"upper_power": 2.0, "lower_power": 2.0}),
-        "spower": (fn.bound_scaled_power, {"upper_power": 2.0, "lower_power": 2.0}), "sharp": (fn.bound_sharp, {})}
+        # full power forms with DIFFERENT exponents for the two sides (mu+ = 2, mu- = 3)
+        "power": (fn.bound_power, {"upper_power": 2.0, "lower_power": 3.0}),
+        "spower": (fn.bound_scaled_power, {"upper_power": 2.0, "lower_power": 3.0}), "sharp": (fn.bound_sharp, {})}
 
 
 class St:
@@ -218,6 +225,7 @@ class UpdaterSystem:
         if name == "p" and self.form == "full":
             lk = self.ukind
         kw = {"power": 2.0}
+        kwl = {"power": 3.0} if (name == "p" and self.form == "full") else kw
         new = []
         for e in range(2):
             P = st.val[name][e]
@@ -225,7 +233,7 @@ class UpdaterSystem:
             if pos is not None:
                 d += ref_upper(uk, P, pos[e], kw)
             if neg is not None:
-                d -= ref_lower(lk, P, neg[e], kw)
+                d -= ref_lower(lk, P, neg[e], kwl)
             new.append(P + d)
         st.val[name] = new
 
@@ -450,7 +458,8 @@ def run(rep):
     cap = 4000 if quick else 30000
     jobs = []
     cfgs = [("default", "none", None, None, None), ("mean", "ctor", None, None, None), ("mean", "method", None, None, None),
-            ("amax", "ctor", None, None, None), ("amax", "method", None, None, None)]
+            ("amax", "ctor", None, None, None), ("amax", "method", None, None, None),
+            ("halfsum", "ctor", None, None, None), ("halfsum", "method", "half", "mult", "mult")]
     for kind in ("mult", "smult", "power", "spower", "sharp"):
         cfgs.append(("default", "none", "half", kind, kind))
         cfgs.append(("default", "none", "full", kind, kind))
